@@ -85,6 +85,14 @@ def configs(tier):
                 cfg = dict(BASE)
                 cfg.update({"network-files": "ice.ucl", "file-formats": "uclchem", "grain-model": model, "binding": binding, "yield": yld, "extra-species": "H, H2"})
                 add(cfg, "family:ice-tables")
+    # ... and the same with table keys that only match a network species after the replacement table was applied
+    for rep in ("SI:Si,HE:He,E:e", "SI: Si, HE: He, E: e"):
+        for binding in ("", "#SIO=4100.0", "#SIO=4100.0,#CO=1300.0"):
+            for yld in ("", "#SIO=0.0025"):
+                cfg = dict(BASE)
+                cfg.update({"elements": "E,H,HE,C,O,SI", "pseudo-elements": "CRP,PHOTON,CRPHOT", "element-replacement": rep, "network-files": "iceuc.ucl", "file-formats": "uclchem",
+                            "grain-model": "rr07", "binding": binding, "yield": yld, "extra-species": "H, H2"})
+                add(cfg, "family:ice-tables-replaced-keys")
     pool = INTERACTING if tier == "quick" else [o for o in ALPHABET if o not in ("heating",)]
     pairs = list(itertools.combinations(pool, 2))
     for a, b in pairs:
@@ -240,6 +248,11 @@ def write_inputs(proj: Path):
         "CO,FREEZE,NAN,#CO,NAN,NAN,NAN,1.0,0.0,0.0,10,41000\nH2O,FREEZE,NAN,#H2O,NAN,NAN,NAN,0.5,0.0,0.0,10,41000\n"
         "#CO,DEUVCR,NAN,CO,NAN,NAN,NAN,1.0,0.0,0.0,10,41000\n#H2O,DEUVCR,NAN,H2O,NAN,NAN,NAN,1.0,0.0,0.0,10,41000\n"
         "#CO,DESCR,NAN,CO,NAN,NAN,NAN,1.0,0.0,0.0,10,41000\n#H2O,DESCR,NAN,H2O,NAN,NAN,NAN,1.0,0.0,0.0,10,41000\n"
+    )
+    (proj / "iceuc.ucl").write_text(
+        "SIO,FREEZE,NAN,#SIO,NAN,NAN,NAN,1.0,0.0,0.0,10,41000\nCO,FREEZE,NAN,#CO,NAN,NAN,NAN,1.0,0.0,0.0,10,41000\n"
+        "#SIO,DEUVCR,NAN,SIO,NAN,NAN,NAN,1.0,0.0,0.0,10,41000\n#CO,DEUVCR,NAN,CO,NAN,NAN,NAN,1.0,0.0,0.0,10,41000\n"
+        "#SIO,DESCR,NAN,SIO,NAN,NAN,NAN,1.0,0.0,0.0,10,41000\n#CO,DESCR,NAN,CO,NAN,NAN,NAN,1.0,0.0,0.0,10,41000\n"
     )
     (proj / "net2.umist").write_text(F.enc_umist(F.AReaction(["C", "CH"], ["C2", "H"], 6.59e-11, 0.0, 0.0, 10.0, 300.0, 5173, "NN")) + "\n")
 
